@@ -317,6 +317,21 @@ fn main() {
       }
     }
   }
+  // a member access at the END of a left operand that is a (flattened) chain of one associative operator
+  for op in ["*", "+", "::", "&&", "||", "-", "/"] {
+    for op2 in ALL_OPS {
+      for e in [
+        format!("(a {op} (b {op} p.x)) {op2} d"),
+        format!("(a {op} b {op} p.x) {op2} d"),
+        format!("(a {op} (b {op} (c {op} p.m()))) {op2} d"),
+        format!("d {op2} (a {op} (b {op} p.x))"),
+        format!("(a {op} (b {op} -p.x)) {op2} d"),
+      ] {
+        cases.push((exprgen::wrap_in_module(&e), 100, format!("operand kinds chain: {e}")));
+        n_operand_cases += 1;
+      }
+    }
+  }
   space.insert("operand_kind_cases".into(), json!(n_operand_cases));
   // tuples around the 16-element cap whose elements are bare identifiers except for one that is written
   // with redundant parentheses (the printer drops them, which moves the tuple to the parser's
